@@ -96,6 +96,56 @@ structure Gfo (s : St) : Prop where
   foRun : s.startD = .pending → (runR C13.foStep {} s.out).running = true ∧ (runR C13.foStep {} s.out).fired = false
   foCalled : s.startD = .called → (runR C13.foStep {} s.out).running = true ∧ (runR C13.foStep {} s.out).fired = true
 
+/-- every delivered message is one a fetch reply carried (`C02.payStep`) -/
+structure Gpay (s : St) : Prop where
+  payOk : (runR C02.payStep {} s.out).bad = false
+  payFrame : ∀ fr, s.frame = some fr → ∀ x ∈ fr.rest, x ∈ (runR C02.payStep {} s.out).seen
+  payProc : ∀ g, s.proc = some g → ∀ x ∈ g.rest, x ∈ (runR C02.payStep {} s.out).seen
+  payParked : ∀ r, s.parked = some r → ∀ x ∈ r.msgs, x ∈ (runR C02.payStep {} s.out).seen
+
+/-! ### Offsets handed to the processor increase (`C02.incStep`) -/
+
+/-- the fetch position is a sentinel, or an offset look-up is outstanding: the next position comes from the broker -/
+def needArm (s : St) : Prop :=
+  s.fetchOffset = offsetEarliest ∨ s.fetchOffset = offsetLatest ∨ s.fetchOffset = offsetCommitted ∨
+    (∃ k c, s.requestD = .pending k .offsets c) ∨ (∃ k c, s.requestD = .pending k .offsetFetch c)
+
+/-- the highest offset among `last` and the increasing list `rest` -/
+def topOff (last : Int) (rest : List Msg) : Int := (lastOff rest).getD last
+
+/-- a fetch reply the statement about increasing delivery speaks of: Kafka offsets (≥ 0), and iterating its messages
+    does not raise OffsetOutOfRangeError (only a fetch REQUEST fails with that) -/
+def ReplyOk (r : Reply) : Prop := (∀ x ∈ r.msgs, 0 ≤ x.off) ∧ ∀ t, r.tail ≠ .raise .outOfRange t
+
+/-- Assumption switch.  The part of the invariant about increasing delivery (`Ginc`) is claimed only under
+    `EnvHyp.sane`: "every fetch reply applied so far satisfies `ReplyOk`, every synchronous cancel outcome the
+    environment chose is not OffsetOutOfRange".  The theorems that do not need that assumption instantiate the
+    class with `False` (so they assume nothing), `C02_increasing` instantiates it with `True` and supplies
+    the facts event by event (`Inv5.EvOk`). -/
+class EnvHyp where
+  sane : Prop
+
+/-- the increasing-delivery monitor has a permitted discontinuity in hand -/
+def Armed (cfg : Cfg) (s : St) : Prop := (runR (C02.incStep cfg.reset.isSome) {} s.out).armed = true
+
+structure Ginc (cfg : Cfg) (s : St) : Prop where
+  incOk : (runR (C02.incStep cfg.reset.isSome) {} s.out).bad = false
+  armE : s.fetchOffset = offsetEarliest → (runR (C02.incStep cfg.reset.isSome) {} s.out).armed = true
+  armL : s.fetchOffset = offsetLatest → (runR (C02.incStep cfg.reset.isSome) {} s.out).armed = true
+  armC : s.fetchOffset = offsetCommitted → (runR (C02.incStep cfg.reset.isSome) {} s.out).armed = true
+  armO : ∀ k c, s.requestD = .pending k .offsets c → (runR (C02.incStep cfg.reset.isSome) {} s.out).armed = true
+  armF : ∀ k c, s.requestD = .pending k .offsetFetch c → (runR (C02.incStep cfg.reset.isSome) {} s.out).armed = true
+  incFrame : ∀ fr, s.frame = some fr → (runR (C02.incStep cfg.reset.isSome) {} s.out).last = some fr.last ∧
+    incFrom (some fr.last) fr.rest = true ∧
+    ((runR (C02.incStep cfg.reset.isSome) {} s.out).armed = true ∨ topOff fr.last fr.rest < s.fetchOffset)
+  incProc : ∀ g, s.proc = some g → (runR (C02.incStep cfg.reset.isSome) {} s.out).last = some g.last ∧
+    incFrom (some g.last) g.rest = true ∧
+    ((runR (C02.incStep cfg.reset.isSome) {} s.out).armed = true ∨ topOff g.last g.rest < s.fetchOffset)
+  incIdle : s.frame = none → s.proc = none → (runR (C02.incStep cfg.reset.isSome) {} s.out).armed = true ∨
+    ∀ l, (runR (C02.incStep cfg.reset.isSome) {} s.out).last = some l → l < s.fetchOffset
+  parkedNN : ∀ r, s.parked = some r → ReplyOk r
+  envOk : ∀ k t, s.envReq = some (k, t) → k ≠ .outOfRange
+
 /-- retry delays (`C14.dlStep`) -/
 structure Gdl (cfg : Cfg) (s : St) : Prop where
   init0 : 0 ≤ cfg.retryInit
